@@ -173,4 +173,131 @@ theorem resetQubit_errors_are_located (st : EState) (hi : Agree st) (q : Int) (p
     rw [run_modify] at h
     cases h
 
+/-! ## the life cycle of the measured flag -/
+
+
+/-- the guard on a state whose table has the flag of `q` cleared -/
+theorem guard_ok_of_flag (st : EState) (q : Int) (p : P) (h0 : 0 ≤ q) (hl : q < st.qubits.length)
+    (hf : (st.qubits.getD q.toNat default).measured = false) :
+    (ensureQubitActive q p).run st = .ok ((), st) := by
+  unfold ensureQubitActive ensureQubitExists
+  have h1 : ¬ ((q < 0) ∨ (st.qubits.length : Int) ≤ q) := by omega
+  simp only [run_bind', run_get, ebind_ok, run_ite, run_rtErr, run_pure, Bool.or_eq_true, decide_eq_true_eq, h1,
+    if_false, ge_iff_le, hf, Bool.false_eq_true]
+
+/-- **After `reset q` the qubit can be operated on again**, whatever its state before -/
+theorem reset_makes_usable (st st' : EState) (q : Int) (p : P)
+    (h : (resetQubit q p).run st = .ok ((), st')) : (ensureQubitActive q p).run st' = .ok ((), st') := by
+  unfold resetQubit ensureQubitExists at h
+  by_cases h1 : (q < 0) ∨ (st.qubits.length : Int) ≤ q
+  · simp only [run_bind', run_get, ebind_ok, run_ite, run_rtErr, run_pure, Bool.or_eq_true, decide_eq_true_eq, h1,
+      if_true, ge_iff_le, ebind_err] at h
+    cases h
+  · simp only [run_bind', run_get, ebind_ok, run_ite, run_rtErr, run_pure, Bool.or_eq_true, decide_eq_true_eq, h1,
+      if_false, ge_iff_le] at h
+    cases hs : (simReset q).run st with
+    | error e => rw [hs] at h; cases h
+    | ok r =>
+      obtain ⟨u, st1⟩ := r
+      rw [hs, ebind_ok] at h
+      unfold unmarkMeasured at h
+      rw [run_modify] at h
+      cases h
+      have hq : st1.qubits = st.qubits := by
+        unfold simReset nextDraw at hs
+        prim_cases hs <;> rfl
+      have hl : q < st.qubits.length := by omega
+      have h0 : 0 ≤ q := by omega
+      apply guard_ok_of_flag _ q p h0
+      · dsimp only
+        rw [hq]
+        have : (decide (q ≥ 0) && decide (q < (st.qubits.length : Int))) = true := by simp; omega
+        simp only [this, if_true, setNth, List.length_set]
+        exact hl
+      · dsimp only
+        rw [hq]
+        have : (decide (q ≥ 0) && decide (q < (st.qubits.length : Int))) = true := by simp; omega
+        simp only [this, if_true, setNth]
+        rw [List.getD_eq_getElem?_getD, List.getElem?_set_self (by omega)]
+        rfl
+
+
+theorem simMeasure_qubits (st st1 : EState) (q v : Int) (hs : (simMeasure q).run st = .ok (v, st1)) :
+    st1.qubits = st.qubits := by
+  unfold simMeasure nextDraw at hs
+  prim_cases hs <;> rfl
+
+/-- **After `measure q` every further operation on `q` is refused**, at the position of the operation, until a reset -/
+theorem measure_makes_unusable (st st' : EState) (q : Int) (p p' : P) (v : Value)
+    (h : (measureQubit q p).run st = .ok (v, st')) :
+    (ensureQubitActive q p').run st' = .error (.runtime p'.line p'.col "qubit has already been measured") := by
+  unfold measureQubit at h
+  obtain ⟨u, s1, g1, k1⟩ := run_bind_ok h
+  -- the guard passed: q is a valid reference and the state is unchanged
+  have hv : 0 ≤ q ∧ q < st.qubits.length ∧ s1 = st := by
+    unfold ensureQubitActive ensureQubitExists at g1
+    by_cases h1 : (q < 0) ∨ (st.qubits.length : Int) ≤ q
+    · simp only [run_bind', run_get, ebind_ok, run_ite, run_rtErr, run_pure, Bool.or_eq_true, decide_eq_true_eq, h1,
+        if_true, ge_iff_le, ebind_err] at g1
+      cases g1
+    · simp only [run_bind', run_get, ebind_ok, run_ite, run_rtErr, run_pure, Bool.or_eq_true, decide_eq_true_eq, h1,
+        if_false, ge_iff_le] at g1
+      split at g1
+      · cases g1
+      · cases g1; exact ⟨by omega, by omega, rfl⟩
+  obtain ⟨h0, hl, hs1⟩ := hv
+  subst hs1
+  obtain ⟨bit, s2, g2, k2⟩ := run_bind_ok k1
+  have hq := simMeasure_qubits _ _ _ _ g2
+  unfold markMeasured setLastMeasurement at k2
+  rw [modify_then, modify_then, run_pure] at k2
+  cases k2
+  have hl2 : q < (s2.qubits.length : Int) := by rw [hq]; exact hl
+  have hc : (decide (q ≥ 0) && decide (q < (s2.qubits.length : Int))) = true := by simp; omega
+  unfold ensureQubitActive ensureQubitExists
+  simp only [hc, if_true]
+  -- the state after marking: the table entry of q has its flag set, whatever `setLastMeasurement` did
+  split
+  all_goals (
+    try dsimp only
+    have hlen : ¬ ((q < 0) ∨ (((setNth s2.qubits q.toNat { (s2.qubits.getD q.toNat default) with measured := true }).length : Nat) : Int) ≤ q) := by
+      simp only [setNth, List.length_set]; omega
+    have hfl : ((setNth s2.qubits q.toNat { (s2.qubits.getD q.toNat default) with measured := true }).getD q.toNat default).measured = true := by
+      simp only [setNth]
+      rw [List.getD_eq_getElem?_getD, List.getElem?_set_self (by omega)]
+      rfl
+    simp only [run_bind', run_get, ebind_ok, run_ite, run_rtErr, run_pure, Bool.or_eq_true, decide_eq_true_eq, hlen,
+      if_false, ge_iff_le, hfl, if_true])
+
+
+theorem guard_state (st st' : EState) (q : Int) (p : P) (h : (ensureQubitActive q p).run st = .ok ((), st')) : st' = st := by
+  unfold ensureQubitActive ensureQubitExists at h
+  prim_cases h <;> rfl
+
+/-- a built-in gate call never touches the evaluator's qubit table: the flags are exactly what they were -/
+theorem gate_call_keeps_the_flags (st st' : EState) (name : String) (argv : List Value) (p : P)
+    (h : (applyBuiltin name argv p).run st = .ok ((), st')) : st'.qubits = st.qubits := by
+  unfold applyBuiltin at h
+  dsimp only at h
+  split at h
+  · obtain ⟨_, s1, g1, k1⟩ := run_bind_ok h
+    have e1 := guard_state _ _ _ _ g1
+    subst e1
+    obtain ⟨_, s2, g2, k2⟩ := run_bind_ok k1
+    have e2 := guard_state _ _ _ _ g2
+    subst e2
+    try dsimp only at k2
+    split at k2
+    · rw [run_rtErr] at k2; cases k2
+    · unfold simCx at k2
+      prim_cases k2 <;> rfl
+  · obtain ⟨_, s1, g1, k1⟩ := run_bind_ok h
+    have e1 := guard_state _ _ _ _ g1
+    subst e1
+    try dsimp only at k1
+    repeat' split at k1
+    all_goals first
+      | (rw [run_rtErr] at k1; cases k1)
+      | (unfold simGate at k1; prim_cases k1 <;> rfl)
+
 end BlochVerif.Eval
